@@ -206,6 +206,50 @@ func TestC10_Precedence(t *testing.T) {
 			return e
 		}
 		explicit := renderWithOps(paren(spec), sp)
+		// the whole chain inside a construct that parses its content with its
+		// own entry point (expression references, multi-select items, hash
+		// values, let bindings, arguments, parentheses, either side of a pipe):
+		// the value is the same, and so must the grouping be
+		if ctx := rapid.IntRange(0, 15).Draw(t, "context"); ctx >= 8 {
+			cur := func() ast.Expr { return ast.Cur() }
+			one := func(x ast.Expr) *ast.Chain { return &ast.Chain{Head: ast.Head{Kind: ast.HMultiList, Items: []ast.Expr{x}}} }
+			first := ast.Step{Kind: ast.SIndex, Index: 0}
+			var wt func(string) string
+			var wa func(ast.Expr) ast.Expr
+			switch ctx {
+			case 8:
+				wt = func(x string) string { return "map(&" + x + ", [@])[0]" }
+				wa = func(x ast.Expr) ast.Expr { return ast.Call("map", ast.Ref(x), ast.A(one(cur()))).With(first) }
+			case 9:
+				wt = func(x string) string { return "[" + x + "][0]" }
+				wa = func(x ast.Expr) ast.Expr { return one(x).With(first) }
+			case 10:
+				wt = func(x string) string { return "{k: " + x + "}.k" }
+				wa = func(x ast.Expr) ast.Expr {
+					return (&ast.Chain{Head: ast.Head{Kind: ast.HMultiHash, Keys: []string{"k"}, Items: []ast.Expr{x}}}).With(ast.Step{Kind: ast.SField, Name: "k"})
+				}
+			case 11:
+				wt = func(x string) string { return "let $v = " + x + " in $v" }
+				wa = func(x ast.Expr) ast.Expr { return &ast.Let{Names: []string{"v"}, Vals: []ast.Expr{x}, Body: ast.Var("v")} }
+			case 12:
+				wt = func(x string) string { return "let $v = `1` in " + x }
+				wa = func(x ast.Expr) ast.Expr { return &ast.Let{Names: []string{"v"}, Vals: []ast.Expr{ast.Lit(jv.VInt(1))}, Body: x} }
+			case 13:
+				wt = func(x string) string { return "not_null(" + x + ", `null`)" }
+				wa = func(x ast.Expr) ast.Expr { return ast.Call("not_null", ast.A(x), ast.A(ast.Lit(jv.VNull()))) }
+			case 14:
+				wt = func(x string) string { return "max_by([@], &" + x + " && `1`) | " + x }
+				wa = nil
+			default:
+				wt = func(x string) string { return "[@][?`true`] | [0] | (" + x + ")" }
+				wa = nil
+			}
+			if wa != nil {
+				implicit, explicit = wt(implicit), wt(explicit)
+				spec, other = wa(spec), wa(other)
+				label += " in-context"
+			}
+		}
 		c.Case()
 		rs, _ := model.Eval(spec, doc)
 		ro, _ := model.Eval(other, doc)
